@@ -32,6 +32,8 @@ const (
 	slowOut = 1000 * time.Millisecond
 	hangFor = 1400 * time.Millisecond
 	slack   = 700 * time.Millisecond
+	// callerGoneAfter: when the caller's own context ends (slot over, shutdown) in the cases that model it
+	callerGoneAfter = 300 * time.Millisecond
 )
 
 var kinds = []string{"attestations", "proposal", "aggregates", "sync-messages", "contributions", "beacon-subscriptions", "sync-subscriptions", "preparations"}
@@ -44,6 +46,8 @@ type atom struct {
 	Hang    bool
 	Err     string // "" = accept
 	Accepts bool   // effective acceptance per the statement (accepted, or rejected only for a tolerated reason from that client)
+	// FirstFast: the first request (chunk) is answered at once, the later ones after Delay
+	FirstFast bool
 }
 
 func generic() []atom {
@@ -90,6 +94,7 @@ func atomsFor(kind string) []atom {
 			atom{Name: "tolerated-lh-prior-known", Client: "Lighthouse/v5.1", Err: "POST failed with status 400: PriorAttestationKnown", Accepts: true},
 			atom{Name: "tolerated-lh-unknown-head", Client: "Lighthouse/v5.1", Err: "POST failed with status 400: UnknownHeadBlock { beacon_block_root: 0x12 }", Accepts: true},
 			atom{Name: "tolerated-nimbus-unknown-target", Client: "Nimbus/v24", Err: "POST failed with status 400: Attempt to send attestation for unknown target", Accepts: true},
+			atom{Name: "tolerated-lh-prior-known-first-chunk-at-once-others-later", Client: "Lighthouse/v5.1", Delay: slowIn, FirstFast: true, Err: "POST failed with status 400: PriorAttestationKnown", Accepts: true},
 			atom{Name: "prior-known-from-teku", Client: "teku/v24", Err: "POST failed with status 400: PriorAttestationKnown"},
 			atom{Name: "unknown-target-from-lighthouse", Client: "Lighthouse/v5", Err: "POST failed with status 400: Attempt to send attestation for unknown target"},
 		)
@@ -138,13 +143,14 @@ func (n *node) NodeVersion(context.Context, *api.NodeVersionOpts) (*api.Response
 func (n *node) receive(ctx context.Context, payload []any) error {
 	n.mu.Lock()
 	n.calls++
+	first := n.calls == 1
 	for _, p := range payload {
 		n.items = append(n.items, n.index(p))
 	}
 	n.mu.Unlock()
 	if n.a.Hang {
 		time.Sleep(hangFor) // ignores ctx
-	} else if n.a.Delay > 0 {
+	} else if n.a.Delay > 0 && !(n.a.FirstFast && first) {
 		select {
 		case <-time.After(n.a.Delay):
 		case <-ctx.Done():
@@ -199,10 +205,12 @@ type fcase struct {
 	Concurrency int64    `json:"process_concurrency"`
 	Immediate   bool     `json:"immediate_submitter,omitempty"`
 	Repeat      int      `json:"sequential_submissions_on_one_service,omitempty"`
+	CallerGone  bool     `json:"callers_context_ends_after_300ms,omitempty"`
 }
 
 func runCase(c *harness.Ctx, id string, fc fcase, atoms []atom) {
 	ctx := context.Background()
+	callCtx := ctx // the context of each submission call
 	ptrIndex := map[any]int{}
 	var pmu sync.Mutex
 	index := func(p any) int {
@@ -273,21 +281,21 @@ func runCase(c *harness.Ctx, id string, fc fcase, atoms []atom) {
 		submit = func() error {
 			switch fc.Kind {
 			case "attestations":
-				return s.SubmitAttestations(ctx, atts)
+				return s.SubmitAttestations(callCtx, atts)
 			case "proposal":
-				return s.SubmitProposal(ctx, proposal)
+				return s.SubmitProposal(callCtx, proposal)
 			case "aggregates":
-				return s.SubmitAggregateAttestations(ctx, aggs)
+				return s.SubmitAggregateAttestations(callCtx, aggs)
 			case "sync-messages":
-				return s.SubmitSyncCommitteeMessages(ctx, msgs)
+				return s.SubmitSyncCommitteeMessages(callCtx, msgs)
 			case "contributions":
-				return s.SubmitSyncCommitteeContributions(ctx, cons)
+				return s.SubmitSyncCommitteeContributions(callCtx, cons)
 			case "beacon-subscriptions":
-				return s.SubmitBeaconCommitteeSubscriptions(ctx, bsubs)
+				return s.SubmitBeaconCommitteeSubscriptions(callCtx, bsubs)
 			case "sync-subscriptions":
-				return s.SubmitSyncCommitteeSubscriptions(ctx, ssubs)
+				return s.SubmitSyncCommitteeSubscriptions(callCtx, ssubs)
 			default:
-				return s.SubmitProposalPreparations(ctx, preps)
+				return s.SubmitProposalPreparations(callCtx, preps)
 			}
 		}
 	} else {
@@ -302,7 +310,7 @@ func runCase(c *harness.Ctx, id string, fc fcase, atoms []atom) {
 		for _, nd := range nodes {
 			mp[nd.name], ma[nd.name], mg[nd.name], mpp[nd.name], mb[nd.name], mm[nd.name], ms[nd.name], mc[nd.name] = nd, nd, nd, nd, nd, nd, nd, nd
 		}
-		s, err := multinode.New(ctx, multinode.WithLogLevel(zerolog.Disabled), multinode.WithTimeout(timeout), multinode.WithClientMonitor(nullmetrics.New()),
+		s, err := multinode.New(callCtx, multinode.WithLogLevel(zerolog.Disabled), multinode.WithTimeout(timeout), multinode.WithClientMonitor(nullmetrics.New()),
 			multinode.WithProcessConcurrency(fc.Concurrency), multinode.WithProposalSubmitters(mp), multinode.WithAttestationsSubmitters(ma),
 			multinode.WithAggregateAttestationsSubmitters(mg), multinode.WithProposalPreparationsSubmitters(mpp), multinode.WithBeaconCommitteeSubscriptionsSubmitters(mb),
 			multinode.WithSyncCommitteeMessagesSubmitters(mm), multinode.WithSyncCommitteeSubscriptionsSubmitters(ms), multinode.WithSyncCommitteeContributionsSubmitters(mc))
@@ -313,21 +321,21 @@ func runCase(c *harness.Ctx, id string, fc fcase, atoms []atom) {
 		submit = func() error {
 			switch fc.Kind {
 			case "attestations":
-				return s.SubmitAttestations(ctx, atts)
+				return s.SubmitAttestations(callCtx, atts)
 			case "proposal":
-				return s.SubmitProposal(ctx, proposal)
+				return s.SubmitProposal(callCtx, proposal)
 			case "aggregates":
-				return s.SubmitAggregateAttestations(ctx, aggs)
+				return s.SubmitAggregateAttestations(callCtx, aggs)
 			case "sync-messages":
-				return s.SubmitSyncCommitteeMessages(ctx, msgs)
+				return s.SubmitSyncCommitteeMessages(callCtx, msgs)
 			case "contributions":
-				return s.SubmitSyncCommitteeContributions(ctx, cons)
+				return s.SubmitSyncCommitteeContributions(callCtx, cons)
 			case "beacon-subscriptions":
-				return s.SubmitBeaconCommitteeSubscriptions(ctx, bsubs)
+				return s.SubmitBeaconCommitteeSubscriptions(callCtx, bsubs)
 			case "sync-subscriptions":
-				return s.SubmitSyncCommitteeSubscriptions(ctx, ssubs)
+				return s.SubmitSyncCommitteeSubscriptions(callCtx, ssubs)
 			default:
-				return s.SubmitProposalPreparations(ctx, preps)
+				return s.SubmitProposalPreparations(callCtx, preps)
 			}
 		}
 	}
@@ -337,6 +345,12 @@ func runCase(c *harness.Ctx, id string, fc fcase, atoms []atom) {
 		repeat = 1
 	}
 	for rep := 0; rep < repeat; rep++ {
+		callCtx = context.Background()
+		if fc.CallerGone {
+			var cancelCall context.CancelFunc
+			callCtx, cancelCall = context.WithTimeout(context.Background(), callerGoneAfter)
+			defer cancelCall()
+		}
 		start := time.Now()
 		done := make(chan error, 1)
 		go func() { done <- submit() }()
@@ -357,6 +371,9 @@ func runCase(c *harness.Ctx, id string, fc fcase, atoms []atom) {
 		expectOK := false
 		for _, a := range atoms {
 			inTime := !a.Hang && a.Delay < timeout
+			if fc.CallerGone {
+				inTime = !a.Hang && a.Delay < callerGoneAfter-100*time.Millisecond
+			}
 			if a.Accepts && inTime {
 				expectOK = true
 			}
@@ -387,6 +404,9 @@ func runCase(c *harness.Ctx, id string, fc fcase, atoms []atom) {
 				c.Violate("returned-after-timeout:"+fc.Kind, fmt.Sprintf("returned after %v, timeout is %v", took, timeout), id, detail)
 			}
 		}
+	}
+	if fc.CallerGone {
+		return // what is still offered after the caller has gone is not judged
 	}
 	// delivery: every node received every item exactly once (wait for stragglers behind slow nodes)
 	deadline := time.Now().Add(3 * time.Second)
@@ -476,6 +496,18 @@ func run(c *harness.Ctx) {
 			cs.fc.Repeat = 6
 			cs.fc.Concurrency = int64(len(nodesSet))
 			cs.id = "history/" + cs.id
+		}
+	}
+	// the caller's context ends before the timeout: the call still returns, and succeeds iff a node had accepted by then
+	for _, kind := range kinds {
+		hang := atom{Name: "hang", Client: "lodestar", Hang: true, Accepts: true}
+		acc := atom{Name: "accept", Client: "teku", Accepts: true}
+		late := atom{Name: "accept-slow-outside", Client: "prysm", Delay: slowOut, Accepts: true}
+		for _, nodesSet := range [][]atom{{hang, late}, {late, late, rej}, {hang, acc}, {rej, rej}, {late}} {
+			add(kind, nodesSet, false)
+			cs := &cases[len(cases)-1]
+			cs.fc.CallerGone = true
+			cs.id = "caller-gone/" + cs.id
 		}
 	}
 	if !c.Quick() {
